@@ -169,5 +169,7 @@ def run(ctx):
             r4.fail(h.name, "new-default", "values outside the legal range must be rejected with MZError::Param (got %s)" % rest)
         else:
             r4.ok(h.name, "new-default", "out-of-range -> Err(Param)")
+    r6 = ctx.rule("R12.6", "history bound: every admitted match distance is at most dict.size (zero after a Full flush)", floor=3, config=cfg)
+    dp.rule_history_bound(ctx, cfg, r6)
     r5 = ctx.rule("R12.5", "deflate(): exits of the driver loop (non-Finish flush leaves only on error, output full, input empty)", floor=8, config=cfg)
     c14.deflate_table(ctx, cfg, r5, r5, r5, r5)
